@@ -15,7 +15,7 @@ theorem only_le_conversions :
 /-- no native-endian / pointer-width-sensitive construct: no `cfg(target_endian|target_pointer_width)`,
 no `usize::MAX/BITS`, `size_of::<usize>`, `isize`, no raw-pointer construct -/
 theorem no_target_sensitive :
-    (facts.all fun f => !(inP f && (f.kind == "target_cfg" || f.kind == "usize_sens" || f.kind == "ptr"))) = true := by
+    (facts.all fun f => !(inP f && (f.kind == "target_cfg" || f.kind == "usize_sens" || (f.kind == "ptr" && !f.test)))) = true := by
   decide +kernel
 
 /-- pointer-width-sensitive integer casts in non-test code of the portable path.  Widening a `usize`
